@@ -24,8 +24,8 @@ package pogreb
 
 //@ func (idx *index) bucketIndex(hash uint32) uint32 [C01,C11,C18]
 //@   pure
-//@   requires lh: idx.level < 32 && idx.splitBucketIdx < uint32(1) << idx.level && uint64(idx.numBuckets) == (uint64(1) << idx.level) + uint64(idx.splitBucketIdx)
-//@   ensures [C01] inrange: r < idx.numBuckets
+//@   requires lh: idx.level < 32 && idx.splitBucketIdx < uint32(1) << idx.level
+//@   ensures [C01] inrange: uint64(idx.numBuckets) == (uint64(1) << idx.level) + uint64(idx.splitBucketIdx) ==> r < idx.numBuckets
 //@   ensures [C18] addr: r == ite(hash & ((uint32(1) << idx.level) - 1) < idx.splitBucketIdx, hash & ((uint32(1) << (idx.level+1)) - 1), hash & ((uint32(1) << idx.level) - 1))
 
 //@ func (idx *index) newBucketIterator(startBucketIdx uint32) (it *bucketIterator) [C01,C11]
